@@ -32,6 +32,7 @@ RULE = ('random single assemblies and 7-position cores with random power '
         'from the limit to 1/20, unrodded axial regions whose bounds are or '
         'are not power-cell bounds; non-trivial when power > 0 and >= 10 '
         'steps; distinct by (cells, order, normalisation, alignment, regions)')
+RULE += (' Later rounds added: VARPOW data sets also with another requested power, a scaling factor and the low-fidelity option; inputs in inches; total_power = 0; pins unpowered over a stretch; several time points from one parsed input (kind timepoints).')
 DECIDING = ['P1_delivered_equals_assigned', 'P2_assigned_equals_file_integral',
             'P4_scaling_linearity', 'P6_coolant_heatup_equals_power_used']
 CASE_TIMEOUT = {'quick': 200, 'thorough': 900}
